@@ -17,7 +17,7 @@ class Job:
     def __init__(self, name, template, bodies=(), enforce=None, harness=None, replace=(),
                  loop_contracts=False, unwind=None, defines=(), cbmc_flags=(), min_obligations=1,
                  bounded=False, timeout=None, backend=None, checks=True, vacuity=True,
-                 object_bits=None, note=None, expect_labels=(), needs=None):
+                 object_bits=None, note=None, expect_labels=(), needs=None, includes=()):
         self.name = name
         self.template = template
         self.bodies = list(bodies)
@@ -37,6 +37,7 @@ class Job:
         self.object_bits = object_bits
         self.note = note
         self.expect_labels = list(expect_labels)
+        self.includes = list(includes)  # extra -I for goto-cc (e.g. plain C headers of /repo)
         self.needs = needs  # names of the bodies this job depends on (None = all)
 
 
@@ -118,7 +119,8 @@ def cbmc_pipeline(ctx, job, cfile, vac):
     defs = " ".join("-D" + d for d in job.defines) + (" -DVACUITY" if vac else "")
     tmo = job.timeout or (1800 if ctx.thorough else 240)
     cmds = []
-    cmd1 = "goto-cc -I%s -I%s -I%s %s --function %s %s -o %s" % (HERE, ctx.spec_dir, ctx.out, defs, job.harness, cfile, a)
+    incs = " ".join("-I" + i for i in job.includes)
+    cmd1 = "goto-cc -I%s -I%s -I%s %s %s --function %s %s -o %s" % (HERE, ctx.spec_dir, ctx.out, incs, defs, job.harness, cfile, a)
     rc, so, se, t1 = _sh(cmd1, 120)
     cmds.append(cmd1)
     if rc != 0:
@@ -220,7 +222,9 @@ def trace_inputs(trace, harness):
         lhs = s.get("lhs", "")
         v = s.get("value", {})
         fn = s.get("sourceLocation", {}).get("function")
-        if (lhs.startswith("in_") and fn == harness) or (lhs.startswith("dynamic_object") and fn == "__CPROVER_contracts_is_fresh"):
+        if lhs.startswith("g_") and "binary" in v:
+            vals[lhs] = {"data": v.get("data"), "binary": v.get("binary"), "type": v.get("type") or v.get("name")}  # ghost state: last value wins
+        elif (lhs.startswith("in_") and fn == harness) or (lhs.startswith("dynamic_object") and fn == "__CPROVER_contracts_is_fresh"):
             _flatten(re.sub(r"\[(\d+)l\]", r"[\1]", lhs), v, vals)
     return vals
 
